@@ -48,6 +48,17 @@ def gen(tier: str, seed: int) -> list[Case]:
         pkg = pg.random_pkg(rng, cfg)
         opts = (["-nc"] if i % 2 == 1 else []) + noise_opts(seed, PID, i)
         cases.append(Case(cid=f"c04-{i}", files=pg.render(pkg), opts=opts, meta={"pkg": pkg}, reach=REACH))
+    # packages whose public signatures USE classes that are not public (private name, private module, private package):
+    # a reference is no leak, so these are judged on parsed declarations only (no search in the stub text)
+    cfg2 = cfg_for(gated_features())
+    cfg2.cross_refs = True
+    cfg2.private_refs = True
+    cfg2.foreign = True
+    rng2 = rng_for(seed, PID, "with-references")
+    for i in range(n // 3):
+        pkg = pg.random_pkg(rng2, cfg2)
+        opts = (["-nc"] if i % 2 == 1 else []) + noise_opts(seed, PID, f"r{i}")
+        cases.append(Case(cid=f"c04-r{i}", files=pg.render(pkg), opts=opts, meta={"pkg": pkg, "declarations_only": True}, reach=REACH))
     for name, pkg in scenarios().items():
         for nc in (False, True):
             cases.append(Case(cid=f"c04-scn-{name}-{int(nc)}", files=pg.render(pkg), opts=["-nc"] if nc else [], meta={"pkg": pkg}, reach=REACH))
@@ -78,7 +89,7 @@ def make_judge(chk: Check):
         for e in ss.errors.values():
             chk.discarded[f"unparsable-stub:{e.rule}"] += 1
         pubs = pg.publicity(pkg)
-        viols = st.judge_privacy(chk, pkg, ss, pubs, ss.api())
+        viols = st.judge_privacy(chk, pkg, ss, pubs, ss.api(), text_search=not case.meta.get("declarations_only"))
         npriv = sum(1 for g in pg.walk(pkg) if not pubs[g.id].public)
         chk.sample({"case": case.cid, "private_declarations": npriv, "inits": {".".join(k): [pg.render_reexport(k, r) for r in v] for k, v in list(pkg.inits.items())[:3]}}, limit=3)
         return viols
